@@ -126,7 +126,8 @@ const (
 )
 
 // derived: how v depends on the iteration key.
-//   0 = not derived from the key only, 1 = function of key (+invariants), 2 = injective function of key
+//
+//	0 = not derived from the key only, 1 = function of key (+invariants), 2 = injective function of key
 func (oc *orderChecker) derived(l *loopInfo, v ssa.Value, depth int) int {
 	if depth > 12 {
 		return 0
